@@ -160,7 +160,7 @@ PROPS['C07'] = dict(
 PROPS['C13'] = dict(
     title='reserved words',
     units=['kwstack'],
-    engines=[dict(module='gvc.engine', args=dict(analyses=('ident', 'faithful'))), REPLAY],
+    engines=[dict(module='gvc.engine', args=dict(analyses=('ident', 'faithful', 'kwsites'))), REPLAY],
     shims=['A-nom', 'A-packrat'],
     design='DESIGN.md 3/C13',
     technique='Verus contracts on the keyword-version stack and is_keyword (unit kwstack); generated obligations on the identifier lexers and the keyword tables of the real parser sources (construction sites, keyword check, table contents against the reference lists, begin/end pairing on every path)',
@@ -215,8 +215,8 @@ PROPS['C19'] = dict(
 KANI = dict(module='vx.kanieng', tier='thorough')
 PROPS['C03']['engines'] = [KANI, dict(module='vx.boundeng')]
 PROPS['C18']['engines'] = [REPLAY]
-PROPS['C05']['engines'] = [dict(module='vx.boundeng'), dict(module='gvc.engine', args=dict(analyses=('shadow',)))]
-PROPS['C11']['engines'] = [dict(module='gvc.engine', args=dict(analyses=('shadow',)))]
+PROPS['C05']['engines'] = [dict(module='vx.boundeng'), dict(module='gvc.engine', args=dict(analyses=('shadow', 'kwsites')))]
+PROPS['C11']['engines'] = [dict(module='gvc.engine', args=dict(analyses=('shadow', 'kwsites')))]
 PROPS['C04']['engines'] = [dict(module='gvc.engine', args=dict(analyses=('frame',))), REPLAY]
 PROPS['C06']['engines'] = [dict(module='gvc.engine', args=dict(analyses=('pptotal', 'faithful', 'shadow'))), dict(module='vx.boundeng'), REPLAY]
 
